@@ -6,7 +6,7 @@ import CelloProofs.Lemmas.Fmt
 
 namespace Cello.Fmt
 
-variable (cfg : Cfg) (prim : Str → PVal → Str) (shw : Obj → Out → Out × Outcome) (args : List Obj)
+variable (cfg : Cfg) (prim : Prim) (shw : Obj → Out → Out × Outcome) (args : List Obj)
 
 /-! ### one iteration -/
 
@@ -20,8 +20,10 @@ theorem loop_lit (fmt pre s t : Str) (hf : fmt = pre ++ (s ++ t)) (hs0 : s ≠ [
     (hs : ∀ c ∈ s, c ≠ NUL ∧ c ≠ '%') (ht : ¬ (headOrNul t ≠ NUL ∧ headOrNul t ≠ '%'))
     (f k : Nat) (o : Out) (mk : Marks) :
     loop cfg prim shw fmt args (f + 1) pre.length k o mk =
-      loop cfg prim shw fmt args f (pre.length + s.length) k (o.formatTo prim s .none)
-        (((mk.read pre.length).read (pre.length + s.length)).write s.length) := by
+      match o.call prim s .none with
+      | (o', .ok) => loop cfg prim shw fmt args f (pre.length + s.length) k o'
+          (((mk.read pre.length).read (pre.length + s.length)).write s.length)
+      | (o', bad) => ⟨o', bad, ((mk.read pre.length).read (pre.length + s.length)).write s.length⟩ := by
   subst hf
   obtain ⟨c, s', rfl⟩ := List.exists_cons_of_ne_nil hs0
   have hc := hs c (by simp)
@@ -36,11 +38,16 @@ theorem loop_lit (fmt pre s t : Str) (hf : fmt = pre ++ (s ++ t)) (hs0 : s ≠ [
   have hsub : pre.length + (c :: s').length - pre.length = (c :: s').length := by omega
   simp only [hne, ne_eq, not_false_eq_true, if_true, hsub, h2, h3]
   rw [if_neg (by simp; omega)]
+  generalize Out.call prim o (c :: s') PVal.none = r
+  rcases r with ⟨o', oc⟩
+  cases oc <;> rfl
 
 theorem loop_pct (fmt pre t : Str) (hf : fmt = pre ++ ('%' :: '%' :: t)) (f k : Nat) (o : Out) (mk : Marks) :
     loop cfg prim shw fmt args (f + 1) pre.length k o mk =
-      loop cfg prim shw fmt args f (pre.length + 2) k (o.formatTo prim ['%', '%'] .none)
-        (((mk.read pre.length).read pre.length).read (pre.length + 1)) := by
+      match o.call prim ['%', '%'] .none with
+      | (o', .ok) => loop cfg prim shw fmt args f (pre.length + 2) k o'
+          (((mk.read pre.length).read pre.length).read (pre.length + 1))
+      | (o', bad) => ⟨o', bad, ((mk.read pre.length).read pre.length).read (pre.length + 1)⟩ := by
   subst hf
   have h0 : rd (pre ++ ('%' :: '%' :: t)) pre.length = some '%' := by rw [rd_append_zero, rd_cons_zero]
   have h0' : rd (pre ++ ('%' :: '%' :: t)) (pre.length + 1) = some '%' := by
@@ -51,7 +58,10 @@ theorem loop_pct (fmt pre t : Str) (hf : fmt = pre ++ ('%' :: '%' :: t)) (f k : 
   have hp : ('%' : Char) ≠ NUL := by decide
   rw [loop]
   simp only [h0, h1, h0']
-  simp [hp]
+  simp only [hp, if_false, ne_eq, not_true_eq_false, if_true, and_self]
+  generalize Out.call prim o ['%', '%'] PVal.none = r
+  rcases r with ⟨o', oc⟩
+  cases oc <;> rfl
 
 /-- marks after a specification that starts at index `i` and has a body of `n` characters -/
 def specMarks (mk : Marks) (i n : Nat) : Marks :=
@@ -186,17 +196,35 @@ theorem loop_refines (hpct : '%' ∉ cfg.conv) : ∀ (segs : List Seg), wfSegs c
       obtain ⟨hs0, hs⟩ := lit_wf hseg
       simp only [Seg.text] at hf hlen
       rw [loop_lit cfg prim shw args fmt pre s (render rest) hf hs0 hs (hstop rfl)]
-      have := ih hrest fmt (pre ++ s) f k (o.formatTo prim s .none)
-        (((mk.read pre.length).read (pre.length + s.length)).write s.length)
-        (by simp [hf]) hfu' (by simp [Marks.read, Marks.write]; omega) (by simp [Marks.read, Marks.write]; omega)
-      simpa [refRun] using this
+      have hm1 : (((mk.read pre.length).read (pre.length + s.length)).write s.length).rdMax ≤ fmt.length := by
+        simp [Marks.read, Marks.write]; omega
+      have hm2 : (((mk.read pre.length).read (pre.length + s.length)).write s.length).wrMax ≤ fmt.length := by
+        simp [Marks.read, Marks.write]; omega
+      simp only [refRun]
+      rcases hcall : o.call prim s .none with ⟨o', oc⟩
+      cases oc with
+      | ok =>
+        have := ih hrest fmt (pre ++ s) f k o'
+          (((mk.read pre.length).read (pre.length + s.length)).write s.length) (by simp [hf]) hfu' hm1 hm2
+        simpa using this
+      | raised e => exact ⟨_, rfl, hm1, hm2⟩
+      | oob => exact ⟨_, rfl, hm1, hm2⟩
     | pct =>
       simp only [Seg.text] at hf hlen
       rw [loop_pct cfg prim shw args fmt pre (render rest) (by simpa using hf)]
-      have := ih hrest fmt (pre ++ ['%', '%']) f k (o.formatTo prim ['%', '%'] .none)
-        (((mk.read pre.length).read pre.length).read (pre.length + 1))
-        (by simp [hf]) hfu' (by simp [Marks.read] at hlen ⊢; omega) (by simpa [Marks.read] using hw)
-      simpa [refRun] using this
+      have hm1 : (((mk.read pre.length).read pre.length).read (pre.length + 1)).rdMax ≤ fmt.length := by
+        simp [Marks.read] at hlen ⊢; omega
+      have hm2 : (((mk.read pre.length).read pre.length).read (pre.length + 1)).wrMax ≤ fmt.length := by
+        simpa [Marks.read] using hw
+      simp only [refRun]
+      rcases hcall : o.call prim ['%', '%'] .none with ⟨o', oc⟩
+      cases oc with
+      | ok =>
+        have := ih hrest fmt (pre ++ ['%', '%']) f k o'
+          (((mk.read pre.length).read pre.length).read (pre.length + 1)) (by simp [hf]) hfu' hm1 hm2
+        simpa using this
+      | raised e => exact ⟨_, rfl, hm1, hm2⟩
+      | oob => exact ⟨_, rfl, hm1, hm2⟩
     | spec b c =>
       obtain ⟨hc, hc0, hb, hb0⟩ := spec_wf hseg
       simp only [Seg.text] at hf hlen
